@@ -721,6 +721,20 @@ type ygRunner struct {
 	// HandlerMark, when set, restricts yields to goroutines whose stack contains it (other goroutines of the
 	// program under test that reach the hook are ignored)
 	HandlerMark string
+	// bgStall: while 1, background goroutines of the program under test (those without HandlerMark on their
+	// stack, e.g. a channel goroutine) are held at their next lock acquisition: a slow consumer. The stall is
+	// lifted by the controller, or by Step when a client operation turns out to need the background goroutine.
+	bgStall           ygWord
+	StallLiftedByNeed int
+}
+
+// StallBackground switches the stall of background goroutines on or off (controller side).
+func (r *ygRunner) StallBackground(on bool) {
+	if on {
+		r.bgStall.store(1)
+	} else {
+		r.bgStall.store(0)
+	}
 }
 
 func (r *ygRunner) wait(w *ygWord, v uint64, deadline time.Time) bool {
@@ -770,13 +784,26 @@ func (r *ygRunner) Start() {
 
 // Yield is the SimYield implementation: called on a client goroutine in the middle of an operation.
 func (r *ygRunner) Yield(point string) {
+	if point == "lock" && r.bgStall.load() == 1 && r.HandlerMark != "" && !ygOnGoroutineWith(r.HandlerMark) {
+		for r.bgStall.load() == 1 { // a background goroutine (whether or not a client operation is running)
+			runtime.Gosched()
+		}
+		return
+	}
 	t := r.turn.load()
 	if t == 0 || int(t) > len(r.clients) {
 		return // not inside a serialized operation
 	}
 	cl := r.clients[t-1]
 	if r.HandlerMark != "" && !ygOnGoroutineWith(r.HandlerMark) {
-		return // another goroutine of the program under test (a channel goroutine)
+		// another goroutine of the program under test (a channel goroutine): only the stall applies to it,
+		// and only where it holds no lock ("lock" comes before an acquisition; nested locking is not used there)
+		if point == "lock" {
+			for r.bgStall.load() == 1 {
+				runtime.Gosched()
+			}
+		}
+		return
 	}
 	op := cl.ops[cl.cur]
 	switch point {
@@ -843,6 +870,14 @@ func (r *ygRunner) Step(c int, watchdog time.Duration) ygStep {
 		dl = time.Now().Add(watchdog)
 	}
 	r.turn.store(uint64(c + 1))
+	if r.bgStall.load() == 1 {
+		// a stalled consumer must not deadlock the schedule: when the operation does not come back quickly it is
+		// waiting for the background goroutine (e.g. a full queue), and the stall ends
+		if !r.wait(&r.turn, 0, time.Now().Add(150*time.Millisecond)) {
+			r.bgStall.store(0)
+			r.StallLiftedByNeed++
+		}
+	}
 	if !r.wait(&r.turn, 0, dl) {
 		r.Hung = true
 		return st
@@ -882,7 +917,7 @@ func (r *ygRunner) Finish() {
 
 // racePoolPkgs are standard-library packages that recycle objects through sync.Pool; a report whose two
 // accesses are both inside them is a pooling artefact of the neutralised pool clocks, not a finding.
-var racePoolPkgs = []string{"fmt.", "regexp.", "regexp/syntax.", "sync.", "net/http.", "net/textproto.", "encoding/json.", "bufio.", "log/slog.", "log/slog/internal/buffer."}
+var racePoolPkgs = []string{"os.", "fmt.", "regexp.", "regexp/syntax.", "sync.", "net/http.", "net/textproto.", "encoding/json.", "bufio.", "log/slog.", "log/slog/internal/buffer."}
 
 type raceReport struct {
 	PoolArtefact bool
@@ -959,12 +994,16 @@ func parseRaceReports(text string) []raceReport {
 				continue
 			}
 			top, owner := "unknown", ""
+			innermostSeen := false
 			for j := i + 1; j < len(lines); j++ {
 				s := strings.TrimSpace(lines[j])
 				if s == "" {
 					break
 				}
-				if j == i+1 {
+				// the innermost frame that is not a runtime routine (slicecopy, slicebytetostring, memmove ... are
+				// where the access physically happens) tells whose memory it is; file lines start with "/"
+				if !innermostSeen && !strings.HasPrefix(s, "/") && !strings.HasPrefix(s, "<") && !strings.HasPrefix(s, "runtime.") && !strings.HasPrefix(s, "internal/") {
+					innermostSeen = true
 					for _, p := range racePoolPkgs {
 						if strings.HasPrefix(s, p) {
 							nPoolTop++
